@@ -23,8 +23,10 @@ def pOptVecs (s : String) : Option (List (Option V)) :=
   if s = "-" || s = "" then some [] else (s.splitOn ";").mapM pOptVec
 def pOptMats (s : String) : Option (List (Option M)) :=
   if s = "-" || s = "" then some [] else (s.splitOn "|").mapM pOptMat
-/-- rows of flags, one row per individual (`-` = an individual without flags) -/
-def pBools2 (s : String) : Option (List (List Bool)) := (s.splitOn ";").mapM (parseList parseBool)
+/-- rows of flags, one row per individual (`-` = an empty flag tuple, `x` = the fitness has no
+`constraint_violation` attribute): (hasattr, flags) -/
+def pBools2 (s : String) : Option (List (Bool × List Bool)) :=
+  (s.splitOn ";").mapM (fun r => if r = "x" then some (false, []) else (parseList parseBool r).map (fun l => (true, l)))
 
 def sF := showFloat
 def sVec (v : V) : String := showList showFloat v
@@ -228,7 +230,8 @@ def opActUpd (args : List String) : Option String := do
     let invT ← pOptMats invTape
     let pop : List (Active.AInd V Float) :=
       (List.zip ids (List.zip fits (List.zip cvs (List.zip xs (List.zip ys zs))))).map (fun t =>
-        { id := t.1, fit := t.2.1, cv := t.2.2.1, x := t.2.2.2.1, y := t.2.2.2.2.1, z := t.2.2.2.2.2 })
+        { id := t.1, fit := t.2.1, cv := t.2.2.1.2, hasCv := t.2.2.1.1, x := t.2.2.2.1, y := t.2.2.2.2.1,
+          z := t.2.2.2.2.2 })
     let s : Active.State V Float :=
       { dim := n, parentId := ← parseNat pid, parentX := px, parentFit := ← pOptVec pfit,
         sigma := ← parseFloat sigma, A := A, invA := invA, pc := pc, psucc := ← parseFloat psucc,
